@@ -194,6 +194,51 @@ def observe(spec, obs, poi, mu, want_limit=False, fit_kw=None):
     return out
 
 
+def robust_objectives(spec, obs, poi, mu, seed, fit_kw=None, nstarts=5):
+    """Best objective over several starting points for the three fits an asymptotic test makes
+    (free, POI fixed at mu, POI fixed at 0).  Used only to DIAGNOSE a failed relation: if the multi-start optima of
+    both sides agree, the likelihood functions agree and the single-start fits sat in different local minima."""
+    import pyhf
+    from pyhf import exceptions as E
+
+    model = pyhf.Model(copy.deepcopy(spec), poi_name=poi)
+    cfg = model.config
+    data = [x for c in cfg.channels for x in obs[c]] + list(cfg.auxdata)
+    rng = random.Random(seed)
+    base = list(cfg.suggested_init())
+    bounds = cfg.suggested_bounds()
+    fixed = cfg.suggested_fixed()
+    starts = [base]
+    for _ in range(nstarts):
+        st = []
+        for v, (lo, hi), fx in zip(base, bounds, fixed):
+            if fx:
+                st.append(v)
+            else:
+                w = 0.8 if lo < 0 else 0.25
+                st.append(min(max(v + rng.uniform(-w, w), lo + 1e-6), hi - 1e-6))
+        starts.append(st)
+    best = [math.inf, math.inf, math.inf]
+    kw = fit_kw or {}
+    for st in starts:
+        for j, pv in enumerate((None, mu, 0.0)):
+            try:
+                if pv is None:
+                    _, f = pyhf.infer.mle.fit(data, model, list(st), return_fitted_val=True, **kw)
+                else:
+                    _, f = pyhf.infer.mle.fixed_poi_fit(pv, data, model, list(st), return_fitted_val=True, **kw)
+                best[j] = min(best[j], float(to_np(f).reshape(-1)[0]))
+            except E.FailedMinimization:
+                pass
+            except Exception:
+                pass
+    return best
+
+
+def same_minima(a, b, const, tol=2e-5):
+    return all(math.isfinite(x) and math.isfinite(y) and abs((y - const) - x) <= tol * (1 + abs(x)) for x, y in zip(a, b))
+
+
 def relclose(a, b, rel, tail=False):
     # for a tail probability p = Phi(-x): dp/p = dq/2 with q = x^2 ~ -2 ln p, and the fit noise on q is relative,
     # so the relative noise of p grows like -ln p (1.7e-4 observed between backends at p = 2.4e-12)
@@ -274,7 +319,19 @@ def check_model(case, shard):
                     probs.append(f"expected limit[{i}] {base['explimits'][i]!r} -> {new['explimits'][i]!r} x k={k}")
                     break
         if probs:
-            shard.violate("C15/rewrite:" + "+".join(kinds), "; ".join(probs[:3]) + f"; backend={backend} mu={mu}", c, "rewrite_relation")
+            mech_name = "C15/rewrite:" + "+".join(kinds)
+            try:
+                ra = robust_objectives(spec, obs, poi, mu, case["seed"])
+                rb = robust_objectives(s2, o2, p2, mu / k, case["seed"] + 1)
+                single_differs = abs((new["nll"] - const) - base["nll"]) > 1e-5 * (1 + abs(base["nll"]))
+                if same_minima(ra, rb, const):
+                    # the two likelihood functions have the same optima: the default-start fits of the two spellings
+                    # of the model converged to different local minima of a multi-modal likelihood
+                    mech_name = "C15/optimiser-path-dependence-in-multimodal-likelihood"
+                    probs.append(f"multi-start optima agree on both sides ({ra} vs {rb}, constant {const:.4f})")
+            except Exception:
+                pass
+            shard.violate(mech_name, "; ".join(probs[:4]) + f"; backend={backend} mu={mu}", c, "rewrite_relation")
         else:
             shard.ok("rewrite_relation")
             shard.maximum("cls_rel_change_" + ("exact" if exact else "other"), abs(new["cls"] - base["cls"]) / (abs(base["cls"]) + 1e-300))
@@ -306,7 +363,21 @@ def check_model(case, shard):
             if any(not relclose(other["band"][i], base["band"][i], rel, tail=True) for i in range(5)):
                 probs.append(f"CLs_exp {base['band']} vs {other['band']}")
             if probs:
-                shard.violate(f"C15/configuration:{be}-{opt}", "; ".join(probs) + f" ({home}/scipy vs {be}/{opt})", dict(case, config=[be, opt]), "configuration_agreement")
+                mech_name = f"C15/configuration:{be}-{opt}"
+                try:
+                    ra = robust_objectives(spec, obs, poi, mu, case["seed"])
+                    if opt == "minuit":
+                        pyhf.set_backend(be, pyhf.optimize.minuit_optimizer(tolerance=1e-3), precision="64b")
+                    else:
+                        pyhf.set_backend(be, "scipy", precision="64b")
+                    rb = robust_objectives(spec, obs, poi, mu, case["seed"] + 1)
+                    pyhf.set_backend(home, "scipy", precision="64b")
+                    if same_minima(ra, rb, 0.0, tol=2e-4 if opt == "minuit" else 2e-5):
+                        mech_name = "C15/optimiser-path-dependence-in-multimodal-likelihood"
+                        probs.append(f"multi-start optima agree in both configurations ({ra} vs {rb})")
+                except Exception:
+                    pyhf.set_backend(home, "scipy", precision="64b")
+                shard.violate(mech_name, "; ".join(probs) + f" ({home}/scipy vs {be}/{opt})", dict(case, config=[be, opt]), "configuration_agreement")
             else:
                 shard.ok("configuration_agreement")
                 shard.covered("configurations", f"{home}/scipy vs {be}/{opt}")
